@@ -157,14 +157,16 @@ PROFILES = {
     # `assert_no_redundant_params` of reply.rs; the accessors of MsgVariant / MsgField / MsgAttr and the attribute parser are parameters
     "replyparams": {"src": ("sylvia-derive", "src", "contract", "communication", "reply.rs"), "out": "ReplyParamFns.lean", "ns": "Extracted.ReplyParamFns",
                     "imports": ["Sylvia.Model.RustSem", "Sylvia.Model.RustExtern", "Sylvia.Extracted.ReplyOnFns"], "opens": "open RustSem Extracted.ReplyOnFns\nopen RustExtern (ParsedAttrs)",
-                    "vars": "variable {MsgVariant MsgField MsgAttr Attr P D : Type}", "str": "String",
-                    "only": ["assert_no_redundant_params"], "only_enums": [], "only_structs": [], "trait_only": ["MsgVariant.as_data_field"], "diags": True,
-                    "type_vars": ["MsgVariant", "MsgField"],
+                    "vars": "variable {MsgVariant MsgField MsgAttr Attr P D Ident : Type}", "str": "String",
+                    "only": ["assert_no_redundant_params"], "only_enums": [], "only_structs": [], "trait_only": ["MsgVariant.as_variant_handlers_pair", "MsgVariant.as_data_field"], "diags": True,
+                    "type_vars": ["MsgVariant", "MsgField", "Ident"],
                     "extern_enum_fields": {"ReplyOn": {"Success": [], "Error": [], "Always": []}},
                     "leading_binders": "(variantFields : MsgVariant → List MsgField) (variantMsgAttr : MsgVariant → MsgAttr) (attrReplyOn : MsgAttr → ReplyOn) "
-                                       "(fieldAttrs : MsgField → List Attr) (parsedAttrs : List Attr → ParsedAttrs P D)",
-                    "leading_args": "variantFields variantMsgAttr attrReplyOn fieldAttrs parsedAttrs",
-                    "extern_methods": {"fields": "variantFields", "msg_attr": "variantMsgAttr", "reply_on": "attrReplyOn", "attrs": "fieldAttrs"},
+                                       "(fieldAttrs : MsgField → List Attr) (parsedAttrs : List Attr → ParsedAttrs P D) "
+                                       "(attrHandlers : MsgAttr → List Ident) (variantFnName : MsgVariant → Ident)",
+                    "leading_args": "variantFields variantMsgAttr attrReplyOn fieldAttrs parsedAttrs attrHandlers variantFnName",
+                    "extern_methods": {"fields": "variantFields", "msg_attr": "variantMsgAttr", "reply_on": "attrReplyOn", "attrs": "fieldAttrs",
+                                       "handlers": "attrHandlers", "function_name": "variantFnName"},
                     # the two constants of reply.rs (both 1; `const NUMBER_OF_ALLOWED_*: usize = 1`)
                     "extern_calls": {"ParsedSylviaAttributes::new": "parsedAttrs", "NUMBER_OF_ALLOWED_RAW_PAYLOAD_FIELDS": "1", "NUMBER_OF_ALLOWED_DATA_FIELDS": "1"}},
     # the bridge to chain-custom types (C11): `IntoMsg::into_msg` and `IntoResponse::into_response`, trait methods on cosmwasm_std's
